@@ -1967,9 +1967,30 @@ fn assemble(defs: &[DefStmt], t: &DefTable, units: &[Unit], up: bool) -> Prog {
             push(&mut p, &mut src, &stmt(text, "type-definition"), usize::MAX);
         }
     }
+    // names used BEFORE the DEFtype statements: a DEFtype statement changes the default type from its place in the text on
+    // (README: "the default type can be changed ... with the DEFINT A-Z statement"), so up to there a bare name is SINGLE
+    let early: Vec<usize> = (0..26).filter(|l| t.non_default(*l)).take(2).collect();
+    let early_name = |l: usize| format!("{}qy9", (b'A' + l as u8) as char);
+    for (k, l) in early.iter().enumerate() {
+        let n = early_name(*l);
+        let mut a = stmt(format!("{} = {}", n, 71 + k), "early-bare-assign-before-deftype");
+        a.wrote = Some(((71 + k).to_string(), None));
+        push(&mut p, &mut src, &a, usize::MAX);
+        push(&mut p, &mut src, &print_l(format!("e{}.1", k), &format!("{}!", n), &(71 + k).to_string(), "bare-name-before-deftype-statement-is-single"), usize::MAX);
+    }
     for d in defs {
         let tag = if !up && d.has_lower_to_upper_range() { "deftype-range-lower-to-upper" } else { "deftype-statement" };
         push(&mut p, &mut src, &stmt(d.text(up), tag), usize::MAX);
+    }
+    for (k, l) in early.iter().enumerate() {
+        let n = early_name(*l);
+        let q = t.q[*l];
+        let (lit, shown) = if q == Q::Str { (format!("\"v{}\"", 33 + k), format!("v{}", 33 + k)) } else { ((33 + k).to_string(), (33 + k).to_string()) };
+        let mut a = stmt(format!("{} = {}", n, lit), "early-bare-assign-after-deftype");
+        a.wrote = Some((shown.clone(), None));
+        push(&mut p, &mut src, &a, usize::MAX);
+        push(&mut p, &mut src, &print_l(format!("e{}.2", k), &format!("{}{}", n, q.ch()), &shown, "bare-name-after-deftype-statement-has-its-type"), usize::MAX);
+        push(&mut p, &mut src, &print_l(format!("e{}.3", k), &format!("{}!", n), &(71 + k).to_string(), "single-variable-written-before-deftype-statement-keeps-its-value"), usize::MAX);
     }
     for (i, o) in outs.iter().enumerate() {
         for l in o.g1.iter().chain(o.g2.iter()) {
@@ -3409,12 +3430,12 @@ impl Prop for C13 {
         "C13"
     }
     fn rule(&self) -> &'static str {
-        "One case = one name-configuration unit: a base name (first letter chosen against the DEFtype statements at the top of the program) with one declaration kind in the global scope {absent, implicit use, DIM x<q> (compact, one or two qualifiers), DIM x AS t (INTEGER/LONG/SINGLE/DOUBLE/STRING/STRING*3/user TYPE), both also as DIM SHARED, CONST} and one in a SUB or FUNCTION scope {absent, implicit use, DIM compact, DIM extended, parameter x<q>, parameter x AS t, CONST}, or the base name is a FUNCTION name. The program assigns a distinct small integer (or 3-character string) through every spelling (bare and % & ! # $, mixed letter cases) that the reference resolver accepts and prints through every spelling: in the global scope before and after the call, in the subprogram before and after its own assignments. Up to 12 units with different base names share one program (attribution by source row / output marker). Expected values come from the independent resolver written from the statement + README; a must-reject unit carries one statement (foreign suffix on an extended variable, or extended + qualified compact DIM) that has to be rejected at its row. Enumerated part (identical in both tiers): see exhaustive_parts; random part: 0-3 DEFtype statements with up to 3 letters/ranges each in random letter case, 1-6 units with random declarations, spellings, orders, letter cases. ADDED (array parameters): a unit whose base name is an ARRAY PARAMETER of a SUB/FUNCTION, declared compact (`A%()`, `A$()`, bare `A()` typed by DEFtype) or extended (`A() AS INTEGER|LONG|SINGLE|DOUBLE|STRING|user TYPE`); a module-level array of the same element type (DIMmed compact with suffix, compact bare, or extended; same or another base name) gets two distinct element values and is passed; inside the subprogram every spelling that the resolver makes denote the parameter (extended: bare + matching suffix; compact: the suffix, and the bare name iff the letter's default type is the element type) reads the caller's values, three elements are written through alternating spellings and read back through every spelling, and the caller prints all three elements after return; next to a compact parameter a scalar of the same base name and ANOTHER type must be a fresh local; next to an extended parameter a foreign suffix (scalar or element, assignment or PRINT) must be rejected at its row. ADDED (constants): a unit with a global CONST and a CONST of the same bare name inside one SUB/FUNCTION (declared bare or suffixed, INTEGER/LONG/SINGLE/DOUBLE/STRING literal, so same and different suffix / value kind, always different values); the name is referenced bare and with the suffix of the innermost definition's type - directly, inside a later `CONST M = name * 2` / `name + \"!\"`, and as `DIM B AS STRING * name` (LEN printed) - at module level before the calls, after the calls and (one third) after the subprogram definitions, in the redefining subprogram after its CONST, and in two non-redefining subprograms (one textually before, one after the redefining one; one SUB, one FUNCTION): the innermost definition must win everywhere in the redefining subprogram, the global one everywhere else. ADDED (parameterless function names): a unit whose base name is a FUNCTION WITHOUT parameters (declared bare or with any suffix; result assigned once, bare or suffixed); the name is referenced bare / with the suffix of its type at module level, inside a SUB and inside ANOTHER FUNCTION (with / without a parameter of its own) in r-value positions (PRINT item, assignment right side, operand, IF condition, SELECT CASE, FOR limit) and in argument positions (user FUNCTION argument plain / parenthesized / inside an expression, user SUB argument with and without CALL, built-in function argument, array subscript): every reference is a call, so it shows the function's (non-zero / non-empty) value; a must-reject unit carries one statement outside the function's body that uses the name as a variable (assignment, FOR counter, READ, INPUT) or declares it again (DIM, DIM AS, CONST). ADDED (DIM SHARED clashes): a unit with `DIM SHARED x...` at module level (compact bare / suffixed or extended, scalar or array, with one accepted use) and a SUB/FUNCTION that declares the same base name as an extended name (local `DIM x AS t` or parameter `x AS t`, scalar or array) or - against an extended shared variable - as a qualified compact name (`DIM x$`, parameter `x$`): the declaration must be rejected at its row. A unit is non-trivial when it is one of these four kinds, or uses >= 2 spellings of its base name, or a non-SINGLE DEFtype covers its letter, or a subprogram scope has SHARED / a parameter / a CONST in play; distinct by unit configuration + DEFtype text."
+        "One case = one name-configuration unit: a base name (first letter chosen against the DEFtype statements at the top of the program) with one declaration kind in the global scope {absent, implicit use, DIM x<q> (compact, one or two qualifiers), DIM x AS t (INTEGER/LONG/SINGLE/DOUBLE/STRING/STRING*3/user TYPE), both also as DIM SHARED, CONST} and one in a SUB or FUNCTION scope {absent, implicit use, DIM compact, DIM extended, parameter x<q>, parameter x AS t, CONST}, or the base name is a FUNCTION name. The program assigns a distinct small integer (or 3-character string) through every spelling (bare and % & ! # $, mixed letter cases) that the reference resolver accepts and prints through every spelling: in the global scope before and after the call, in the subprogram before and after its own assignments. Up to 12 units with different base names share one program (attribution by source row / output marker). Expected values come from the independent resolver written from the statement + README; a must-reject unit carries one statement (foreign suffix on an extended variable, or extended + qualified compact DIM) that has to be rejected at its row. Enumerated part (identical in both tiers): see exhaustive_parts; random part: 0-3 DEFtype statements with up to 3 letters/ranges each in random letter case, 1-6 units with random declarations, spellings, orders, letter cases. ADDED (names before the DEFtype statements): whenever a DEFtype statement gives a letter a non-SINGLE type, a bare name with that letter is assigned BEFORE the DEFtype statements and read back through its ! spelling (a DEFtype statement changes the default type from its place in the text on), assigned again after them and read through the suffix of the new default type, and the SINGLE variable written first must have kept its value. ADDED (array parameters): a unit whose base name is an ARRAY PARAMETER of a SUB/FUNCTION, declared compact (`A%()`, `A$()`, bare `A()` typed by DEFtype) or extended (`A() AS INTEGER|LONG|SINGLE|DOUBLE|STRING|user TYPE`); a module-level array of the same element type (DIMmed compact with suffix, compact bare, or extended; same or another base name) gets two distinct element values and is passed; inside the subprogram every spelling that the resolver makes denote the parameter (extended: bare + matching suffix; compact: the suffix, and the bare name iff the letter's default type is the element type) reads the caller's values, three elements are written through alternating spellings and read back through every spelling, and the caller prints all three elements after return; next to a compact parameter a scalar of the same base name and ANOTHER type must be a fresh local; next to an extended parameter a foreign suffix (scalar or element, assignment or PRINT) must be rejected at its row. ADDED (constants): a unit with a global CONST and a CONST of the same bare name inside one SUB/FUNCTION (declared bare or suffixed, INTEGER/LONG/SINGLE/DOUBLE/STRING literal, so same and different suffix / value kind, always different values); the name is referenced bare and with the suffix of the innermost definition's type - directly, inside a later `CONST M = name * 2` / `name + \"!\"`, and as `DIM B AS STRING * name` (LEN printed) - at module level before the calls, after the calls and (one third) after the subprogram definitions, in the redefining subprogram after its CONST, and in two non-redefining subprograms (one textually before, one after the redefining one; one SUB, one FUNCTION): the innermost definition must win everywhere in the redefining subprogram, the global one everywhere else. ADDED (parameterless function names): a unit whose base name is a FUNCTION WITHOUT parameters (declared bare or with any suffix; result assigned once, bare or suffixed); the name is referenced bare / with the suffix of its type at module level, inside a SUB and inside ANOTHER FUNCTION (with / without a parameter of its own) in r-value positions (PRINT item, assignment right side, operand, IF condition, SELECT CASE, FOR limit) and in argument positions (user FUNCTION argument plain / parenthesized / inside an expression, user SUB argument with and without CALL, built-in function argument, array subscript): every reference is a call, so it shows the function's (non-zero / non-empty) value; a must-reject unit carries one statement outside the function's body that uses the name as a variable (assignment, FOR counter, READ, INPUT) or declares it again (DIM, DIM AS, CONST). ADDED (DIM SHARED clashes): a unit with `DIM SHARED x...` at module level (compact bare / suffixed or extended, scalar or array, with one accepted use) and a SUB/FUNCTION that declares the same base name as an extended name (local `DIM x AS t` or parameter `x AS t`, scalar or array) or - against an extended shared variable - as a qualified compact name (`DIM x$`, parameter `x$`): the declaration must be rejected at its row. A unit is non-trivial when it is one of these four kinds, or uses >= 2 spellings of its base name, or a non-SINGLE DEFtype covers its letter, or a subprogram scope has SHARED / a parameter / a CONST in play; distinct by unit configuration + DEFtype text."
     }
     fn assumptions(&self) -> Vec<&'static str> {
         vec![
             "a variable that was never assigned prints 0 (numeric) or the empty string; an unassigned STRING * n is never printed",
-            "DEFtype statements stand at the top of the program, before any use and before every SUB/FUNCTION; when two ranges of different types cover one letter the case is discarded",
+            "DEFtype statements stand at the top of the program, before every unit and before every SUB/FUNCTION; a DEFtype statement takes effect from its place in the text on (QBasic; README: the default type can be CHANGED with the statement), so the two probe names used before them are SINGLE there; when two ranges of different types cover one letter the case is discarded",
             "arguments are literals, so that parameter passing by reference cannot couple the scopes; a parameter of the user-defined type receives a scratch variable that is not observed",
             "discarded as undetermined by the statement/README: a CONST referenced through another spelling than its declaration or coexisting with variables/declarations of the same base name; a local compact DIM / parameter / CONST with the base name of a DIM SHARED compact variable, a local bare DIM / parameter or CONST with the base name of a DIM SHARED extended variable, any local declaration with the base name of a global CONST (a local CONST over a global CONST is decided: see constants; extended declarations over DIM SHARED variables are decided: see DIM SHARED clashes); DIM after an implicit use; the same variable DIMmed twice; function names called through a foreign suffix or coexisting with variables of the same base name",
             "a CONST is visible as its value in its own scope and (global CONST) in every subprogram; its value is printed like a literal of that type",
